@@ -409,12 +409,35 @@ func main() {
 
 func replay() {
 	m := ctx.LoadReplay()
-	if m["kind"] == "vlq" {
+	switch m["kind"] {
+	case "vlq":
 		n := uint64(m["value"].(float64))
 		vlqRange(n, n+1)
 		ctx.Finish("replay")
+	case "writefile":
+		writeFile()
+		ctx.Finish("replay")
+	case "two-writers":
+		twoWriters()
+		ctx.Finish("replay")
 	}
 	cfg, alName, ops := sp.ParseHistory(m)
+	if alName == "sweep" {
+		fmt.Println("sweep case", m["sweep"], m["sweep_value"], "- the whole sweep is re-run")
+		for _, c := range sp.ValueSweeps() {
+			if sig, what := strictCheck(sp.Build(c.Cfg, c.Al, c.Ops), c.Cfg); sig != "" {
+				fmt.Println("REPLAY: violated:", sig, what)
+				ctx.Violation(sig+":"+c.Name, m)
+			}
+		}
+		sp.ScalarSweeps(0, 1, 0x0FFFFFFF, func(c sp.SweepCase) {
+			if sig, what := strictCheck(sp.Build(c.Cfg, c.Al, c.Ops), c.Cfg); sig != "" {
+				fmt.Println("REPLAY: violated:", sig, what)
+				ctx.Violation(sig+":"+c.Name, m)
+			}
+		})
+		ctx.Finish("replay")
+	}
 	al := sp.Alphabet(alName)
 	in := sp.Build(cfg, al, ops)
 	sig, what := strictCheck(in, cfg)
